@@ -6,7 +6,10 @@
 // tokens and the Microsoft-signed functest catalog, driven through the real
 // pkcs7.Unmarshal/Marshal, Detach, pkcs9.AddStampToSigned*, the builder +
 // TimestampAndMarshal path, the cat signer and the BER repack that csblob/xar
-// run before parsing. Oracle: an independent DER range walker locates the
+// run before parsing; opaque content whose first octets look like a TLV header
+// through the builder (payloads.go); tokens of every length in a window of
+// consecutive byte counts through the signers that write the token as base64
+// text - appmanifest, vsix, ps (textembed.go). Oracle: an independent DER range walker locates the
 // signed regions in input and output (eContent, signedAttrs as encoded,
 // signature, certificates, embedded tokens) and compares bytes; third-party
 // signatures are re-verified with Go crypto and OpenSSL.
@@ -355,6 +358,47 @@ func main() {
 			}
 		}
 	}
+	// the same token shapes with the TSTInfo inside a second, dummy OCTET STRING
+	// (single-dimension variations; both attribute OIDs)
+	wrappedN := 0
+	for _, v := range tokShapes {
+		if dergen.Weight(v) > 1 {
+			continue
+		}
+		for _, stamp := range []string{"rfc3161", "authenticode"} {
+			tp := dergen.ParamsAt(v)
+			tp.EContent = "tst"
+			tp.WrapTST = "octet"
+			switch tp.SigAlg {
+			case "ec256":
+				tp.Key = "p256B"
+			case "ec384":
+				tp.Key = "p384"
+			default:
+				tp.Key = "tsa"
+			}
+			tpc := tp
+			for _, after := range []string{"", "detach"} {
+				built = append(built, builtCase{Key: "rsaA", Hash: "sha256", Content: "data", Attrs: "time", Stamp: stamp, TSA: "dergen", Token: &tpc, After: after})
+				wrappedN++
+			}
+		}
+	}
+	// opaque content whose first octets look like a TLV header (payloads.go), through
+	// every way the builder is given content and every way it is emitted
+	payloads := opaquePayloads(thorough)
+	for _, pl := range payloads {
+		hx := hex.EncodeToString(pl.Bytes)
+		for _, mode := range []struct{ content, after string }{{"data", ""}, {"data", "detach"}} {
+			for _, attrs := range []string{"none", "time"} {
+				built = append(built, builtCase{Key: "rsaA", Hash: "sha256", Content: mode.content, Attrs: attrs, Stamp: "none", TSA: "dergen", After: mode.after, Payload: hx, PayloadName: pl.Name})
+			}
+		}
+		if thorough || len(pl.Bytes) == 32 {
+			// with a time stamp and an ECDSA key: the hash-sized contents (all sizes in the thorough tier)
+			built = append(built, builtCase{Key: "p256A", Hash: "sha256", Content: "data", Attrs: "time", Stamp: "rfc3161", TSA: "dergen", Payload: hx, PayloadName: pl.Name})
+		}
+	}
 	// genuine OpenSSL authorities
 	for _, n := range osslTSANames {
 		for _, k := range []struct{ key, hash string }{{"rsaA", "sha256"}, {"p256A", "sha256"}, {"p384", "sha384"}} {
@@ -386,6 +430,13 @@ func main() {
 	relicx.Use(cfg)
 	runPipeline(cfg)
 	runOsslTokens()
+	phase("pipeline, openssl tokens")
+	textWindow := 96
+	if thorough {
+		textWindow = 288
+	}
+	textEmbedPhase(cfg, textWindow)
+	phase("tokens re-encoded as text")
 
 	hyperv, err := os.ReadFile(filepath.Join(relicx.Packages, "hyperv.cat"))
 	if err != nil {
@@ -421,7 +472,7 @@ func main() {
 		run.Distinct("cat-family:" + dergen.IndexKey(idx))
 	}
 	srv.Close()
-	phase("pipeline, openssl tokens, catalogs")
+	phase("catalogs")
 	run.Set("phase_wall_s", phases)
 
 	// ---------------- evidence ----------------
@@ -438,12 +489,19 @@ func main() {
 		"openssl_judged":    fmt.Sprintf("members differing from base in <= %d dimensions", osslWeight),
 	})
 	run.Set("built_cases", len(built))
+	run.Set("opaque_content_payloads", map[string]any{"count": len(payloads), "first_octets": fmt.Sprintf("%x", payloadFirst), "sizes": payloadSizes(thorough),
+		"length_forms":   "short | 0x81 | 0x82 (minimal or not) x claims none / part / all / more than the rest of the content; 0x80 indefinite with end-of-contents; 0xff",
+		"driven_through": "SetContentData [then Detach], with and without signed attributes (rsaA), and with a time stamp (p256A; quick tier: the 32-octet contents only); SetDetachedContent takes a digest, not content, and its product is refused by TimestampAndMarshal's self check (class built:refused:...missing content)"})
+	run.Set("wrapped_tstinfo_token_cases", wrappedN)
 	run.Set("token_shapes_through_TimestampAndMarshal", len(tokShapes))
 	run.Set("openssl_calls", osslCalls)
 	run.Set("operations", []string{"pkcs7.Unmarshal -> Marshal (+ second round trip)", "Detach -> Marshal", "AddStampToSignedData / AddStampToSignedAuthenticode on the parsed structure -> Marshal -> round trip",
 		"ber.DecodePacketErr(...).Bytes() as in csblob.parseSignature / xar.Verify on the DER form and on two indefinite-length BER forms",
 		"pkcs7.NewBuilder...Sign -> pkcs9.TimestampAndMarshal (authority answer through pkcs9.NewRequest / ParseResponse) [-> Detach -> Marshal]",
-		"timestamp tokens obtained through relic's own tsclient over loopback HTTP (authority side: dergen / openssl ts); 8 requests in a row through one client, every earlier token re-marshalled and re-verified after each later reply", "relic sign pipeline (ps, cab, pe-coff, cat, jar, xar, macho) with and without the loopback openssl authority", "cat signer on hyperv.cat, on its own output (x2) and on dergen catalogs"})
+		"timestamp tokens obtained through relic's own tsclient over loopback HTTP (authority side: dergen / openssl ts); 8 requests in a row through one client, every earlier token re-marshalled and re-verified after each later reply", "relic sign pipeline (ps, cab, pe-coff, cat, jar, xar, macho) with and without the loopback openssl authority", "cat signer on hyperv.cat, on its own output (x2) and on dergen catalogs",
+		"relic sign pipeline (appmanifest, vsix, ps) with a loopback dergen authority whose tokens have every length of a window of consecutive byte counts; the base64 text that was written is decoded with encoding/xml + archive/zip + encoding/base64 and compared with the authority's token",
+		"pkcs7.NewBuilder.SetContentData(opaque content that starts like a TLV header).Sign -> TimestampAndMarshal [-> Detach]: emitted eContent == content handed in == what Detach returns; messageDigest / direct signature over the emitted octets (walker + Go crypto, openssl cms -verify must accept)",
+		"authority tokens whose TSTInfo sits in a second, dummy OCTET STRING through TimestampAndMarshal: embedded byte-identically; a refusal is a violation when the independent verifier accepts the token and relic accepts the same shape without the quirk"})
 	dk := map[string]int64{}
 	devKnown.Range(func(k, v any) bool { dk[k.(string)] = *(v.(*int64)); return true })
 	if len(dk) > 0 {
@@ -457,8 +515,12 @@ func main() {
 		run.Capped(fmt.Sprintf("%d harness self-check failures (see harness_errors)", len(harnessErr)))
 	}
 	run.Rule("case = (input CMS blob, operation) executed on the real code and judged by the walker; distinct_nontrivial = distinct inputs relic parsed (family members by index vector, builder cases, pipeline blobs, catalogs) — refused inputs are counted only in outcome_classes")
+	run.Rule("builder content dimension: content octets = first octet in {04,24,30,31,80,a0,02,00} x length form (short/0x81/0x82 claiming none, part, all, more than the rest; indefinite; 0xff) x size (bare header, hash sized, signature sized), each through SetContentData [+ Detach], with/without signed attributes, with/without a time stamp; non-trivial because the header forms differ in whether a DER reader would accept them and how much of the content they would claim")
+	run.Rule("text-embedded tokens: signer in {appmanifest, vsix, ps} x token length in a window of consecutive byte counts (quick 96, thorough 288: every residue modulo the 48-byte base64 line at least twice, modulo the 3-byte quantum 32 times); outcome classes name the boundary class of each length (last line full / partial, quantum remainder)")
 	run.Assume("structures Go's encoding/asn1 refuses (indefinite or non-minimal lengths) and SignerInfos identified by subjectKeyIdentifier (relic's IssuerAndSerial struct cannot hold them) are outside 'that relic parses': counted as refused")
 	run.Assume("a re-encoded unsigned region (re-sorted SET OF digestAlgorithms / signerInfos) is reported as outcome class unsigned-region-reencoded:<field> and is a violation only if an independently verified signature stops verifying")
+	run.Assume("text forms: only RFC 3161 requests (the legacy Microsoft protocol of appmanifest's rfc3161-timestamp=false is not driven); the cosign signer's annotation (needs an OCI registry) is not driven; base64 text is decoded after removing CR, LF, space and tab, nothing else is tolerated")
+	run.Assume("the token length is steered by an unsigned attribute (private OID, OCTET STRING filler >= 256 octets so that one octet of filler is one octet of token) on the authority's SignerInfo: outside every signature, so the token stays valid for every verifier")
 	run.Assume("the BER repack step is the three library calls csblob.parseSignature and xar.Verify make (replicated verbatim in the harness; the functions themselves are reached through the macho/xar pipeline cases)")
 	for _, a := range moreAssumptions {
 		run.Assume(a)
